@@ -29,8 +29,11 @@ WLOG = []      # write / factory events of the current call
 FAULT = {}     # id(container) -> "wfault" | "dfault"
 
 
+CUR_REGISTRY = [None]   # tag of the registry whose 'assign' / 'delete' handler is running (None: no handler)
+
+
 def _ev(o, op, key):
-    e = {'ev': 'write', 'o': o, 'op': op, 'key': key, 'done': False}
+    e = {'ev': 'write', 'o': o, 'op': op, 'key': key, 'done': False, 'tag': CUR_REGISTRY[0]}
     WLOG.append(e)
     return e
 
@@ -102,9 +105,73 @@ class PropObj(codec.Obj):
 WRITING = dict(codec.PLAIN, dict=WDict, list=WList, tuple=WTuple, obj=WObj)
 
 
-def build(case, logging):
+# ---- registries: which registry's handler performs a write -----------------------------------
+# The logging classes are registered, with handlers of the documented built-in behaviour (mapping
+# key / sequence index / attribute) that record which registry they belong to, on the default
+# registry (module-level glom / assign / delete) and on a Glommer of the harness.  A write event
+# then says whether it was reached through the executing registry's handler ("seg"), through
+# another registry's ("foreign") or directly by a T step ("t").
+import operator as _op
+from glom import Glommer
+from glom.core import _get_sequence_item, _ObjStyleKeys
+from glom.mutation import _set_sequence_item, _del_sequence_item
+
+
+def _tagged(tag, fn):
+    def handler(*a):
+        prev = CUR_REGISTRY[0]
+        CUR_REGISTRY[0] = tag
+        try:
+            return fn(*a)
+        finally:
+            CUR_REGISTRY[0] = prev
+    return handler
+
+
+def _register_logging_classes(register, tag):
+    register(WDict, get=_op.getitem, keys=dict.keys,
+             assign=_tagged(tag, _op.setitem), delete=_tagged(tag, _op.delitem))
+    register(WList, get=_get_sequence_item,
+             assign=_tagged(tag, _set_sequence_item), delete=_tagged(tag, _del_sequence_item))
+    register(WObj, get=getattr, keys=_ObjStyleKeys.get_keys,
+             assign=_tagged(tag, setattr), delete=_tagged(tag, delattr))
+
+
+GLOMMER = Glommer()
+_register_logging_classes(glom.register, 'default')
+_register_logging_classes(GLOMMER.register, 'glommer')
+
+
+def ephemeral_classes():
+    """Fresh, short-lived target classes made with type() (subclasses of the logging classes, so
+    the handlers registered above are their nearest registered types)."""
+    return dict(WRITING,
+                dict=type('EphDict', (WDict,), {'__slots__': ()}),
+                list=type('EphList', (WList,), {'__slots__': ()}),
+                obj=type('EphObj', (WObj,), {}))
+
+
+def prime_and_drop(order):
+    """History for the ephemeral route: classes of the given kinds are created with type(), used once
+    as assign / get / delete targets through string segments, and dropped (del + gc.collect()), so
+    that the classes made next may be allocated where a class of ANOTHER kind used to live."""
+    import gc
+    for kind in order:
+        cls = ephemeral_classes()[kind]
+        if kind == 'list':
+            t = cls([0])
+            glom.assign(t, '0', 1); glom.glom(t, '0'); glom.delete(t, '0')
+        else:
+            t = cls()
+            glom.assign(t, 'k', 1); glom.glom(t, 'k'); glom.delete(t, 'k')
+        del t, cls
+    gc.collect(1)       # the classes were made a moment ago: the young generations suffice
+
+
+def build(case, logging, classes=None):
     """Real objects for the case's heap, faults installed."""
-    heap = codec.Heap([dict(c) for c in case['heap0']], WRITING if logging else codec.PLAIN)
+    heap = codec.Heap([dict(c) for c in case['heap0']], classes or (WRITING if logging else codec.PLAIN))
+    heap.classes_used = classes or (WRITING if logging else codec.PLAIN)
     heap.n0 = len(case['heap0'])
     heap.created = []
     FAULT.clear()
@@ -323,7 +390,7 @@ def _number_created(heap, cls, reachable_only=False):
         heap.ids[id(o)] = a
 
 
-def _observe(heap, case, ok, cls, res, events, nfac, reachable_only=False):
+def _observe(heap, case, ok, cls, res, events, nfac, reachable_only=False, route='default'):
     """project what one evaluation did: outcome, returned object, final heap, write log"""
     obs = {'ok': ok, 'cls': cls, 'v': {'k': 'none'}}
     _number_created(heap, case['missing'], reachable_only)
@@ -333,10 +400,11 @@ def _observe(heap, case, ok, cls, res, events, nfac, reachable_only=False):
     log = []
     for e in events:
         if e['ev'] == 'factory':
-            log.append({'ev': 'factory', 'a': e['n'], 'op': 'call', 'key': {'k': 'none'}, 'done': True})
+            log.append({'ev': 'factory', 'a': e['n'], 'op': 'call', 'key': {'k': 'none'}, 'done': True, 'via': ''})
         else:
+            via = 't' if e['tag'] is None else 'seg' if e['tag'] == route else 'foreign'
             log.append({'ev': 'write', 'a': heap.ids.get(id(e['o']), 0), 'op': e['op'],
-                        'key': heap.project(e['key']), 'done': e['done']})
+                        'key': heap.project(e['key']), 'done': e['done'], 'via': via})
     obs['log'] = log
     obs['nfac'] = nfac
     if getattr(heap, 'literal', None) is not None:
@@ -344,10 +412,19 @@ def _observe(heap, case, ok, cls, res, events, nfac, reachable_only=False):
     return obs
 
 
-def run_case(case, spelling, logging):
-    """Perform the case on real objects; project every observable C11 / C12 name."""
+def run_case(case, spelling, logging, route='default', ephemeral=False):
+    """Perform the case on real objects; project every observable C11 / C12 name.
+    route 'glommer': the call is made through the harness's Glommer (its own registry) instead of the
+    module-level functions.  ephemeral: the target classes are made with type() for this one call,
+    after classes of other kinds were created, used and garbage-collected."""
     name, mk, s_rooted = spelling
-    heap = build(case, logging)
+    classes = None
+    if ephemeral:
+        kinds = sorted({c['cls'] for c in case['heap0']} & {'dict', 'list', 'obj'})
+        prime_and_drop(kinds[1:] + kinds[:1] if len(kinds) > 1 else ['obj' if kinds == ['dict'] else 'dict'])
+        classes = ephemeral_classes()
+    heap = build(case, logging, classes)
+    do_glom = GLOMMER.glom if route == 'glommer' else glom.glom
     target = heap.val(case['root'])
     path = mk()
     kw = {'scope': {'x': target}} if s_rooted else {}
@@ -356,7 +433,7 @@ def run_case(case, spelling, logging):
     if case['kind'] == 'assign':
         factory = None
         if case['missing'] != 'none':
-            fcls = (WRITING if logging else codec.PLAIN)[case['missing']]
+            fcls = heap.classes_used[case['missing']]
 
             def factory():
                 nfac[0] += 1
@@ -367,15 +444,15 @@ def run_case(case, spelling, logging):
                 heap.created.append(o)
                 return o
         val = mk_val(heap, case['val'])
-        if name == 'dotted':
+        if name == 'dotted' and route == 'default':
             call = lambda: glom.assign(target, path, val, missing=factory)
         else:
-            call = lambda: glom.glom(target, Assign(path, val, missing=factory), **kw)
+            call = lambda: do_glom(target, Assign(path, val, missing=factory), **kw)
     else:
-        if name == 'dotted':
+        if name == 'dotted' and route == 'default':
             call = lambda: glom.delete(target, path, ignore_missing=case['ignore'])
         else:
-            call = lambda: glom.glom(target, Delete(path, ignore_missing=case['ignore']), **kw)
+            call = lambda: do_glom(target, Delete(path, ignore_missing=case['ignore']), **kw)
     ok, cls, res = True, '', None
     try:
         res = call()
@@ -383,7 +460,7 @@ def run_case(case, spelling, logging):
         ok, cls = False, exc_name(e)
     events = list(WLOG)
     del WLOG[:]
-    obs = _observe(heap, case, ok, cls, res, events, nfac[0])
+    obs = _observe(heap, case, ok, cls, res, events, nfac[0], route=route)
     FAULT.clear()
     return obs
 
@@ -517,17 +594,36 @@ def replay_state(st, out, matcher_info=None):
     for logging in (False, True):
         if flagged and not logging:
             continue
-        for sp in spellings(case['steps']):
+        routes = [('default', False)]
+        if logging:
+            # through a Glommer with its own registry: every case that creates containers or whose final
+            # segment is handled by a registered handler of a delete
+            if (case['kind'] == 'assign' and case['missing'] != 'none') or \
+                    (case['kind'] == 'delete' and case['steps'][-1]['op'] == 'P' and not case['ignore']):
+                routes.append(('glommer', False))
+            # on classes made with type() right after classes of other kinds were collected: a sample
+            out['seq'] = out.get('seq', 0) + 1
+            if not any(case['flags']) and out['seq'] % EPHEMERAL_EVERY == 0:
+                routes.append(('default', True))
+        for sp, (route, eph) in ((sp, r) for r in routes for sp in spellings(case['steps'])):
+            if eph and sp[0] not in ('dotted', 'Path'):
+                continue
+            if route == 'glommer' and sp[2]:
+                continue        # Glommer.glom() supplies the scope itself: no S-rooted spelling
             try:
-                obs = run_case(case, sp, logging)
+                obs = run_case(case, sp, logging, route=route, ephemeral=eph)
             except vlib.MachineryError:
                 raise
             out['n'] += 1
             clause = conform_clause(case, exp, obs)
-            info = dict(case=case, exp=exp, obs=obs, spelling=sp[0], logging=logging, clause=clause,
-                        model=dict(out=st['out'], log=st['log']))
+            how = sp[0] + (',logging' if logging else '') + (',via Glommer' if route == 'glommer' else '') \
+                + (',short-lived classes' if eph else '')
+            info = dict(case=case, exp=exp, obs=obs, spelling=sp[0], logging=logging, clause=clause, route=route,
+                        ephemeral=eph, model=dict(out=st['out'], log=st['log']))
+            out['vac'][('route:' + route) if not eph else 'route:ephemeral'] = \
+                out['vac'].get(('route:' + route) if not eph else 'route:ephemeral', 0) + 1
             if clause:
-                out['bad'].append(dict(why='%s [%s%s]' % (clause, sp[0], ',logging' if logging else ''), case=info))
+                out['bad'].append(dict(why='%s [%s]' % (clause, how), case=info))
                 continue
             # mechanism level (drift, not violation): escaping class, write log
             if not obs['ok'] and not st['out']['ok'] and obs['cls'] != st['out']['mech']:
@@ -536,7 +632,10 @@ def replay_state(st, out, matcher_info=None):
                     out['drift_samples'].append(dict(steps=case['steps'], spelling=sp[0], model=st['out']['mech'], observed=obs['cls']))
             if logging and obs['log'] != st['log']:
                 # the law on the log is decided by TLC (Trace module) on the observed log
-                out['log_rows'].append(dict(case=case, obs=obs, spelling=sp[0]))
+                out['log_rows'].append(dict(case=case, obs=obs, spelling=sp[0], route=route, ephemeral=eph))
+
+
+EPHEMERAL_EVERY = 12
 
 
 def new_out():
@@ -805,8 +904,10 @@ def record_rows(rng, n, kind):
                 rows.append(dict(case=pair[0], obs=o1, spelling=sp[0], reuse='first'))
                 rows.append(dict(case=pair[1], obs=o2, spelling=sp[0], reuse='second'))
                 continue
-        obs = run_case(case, sp, True)
-        rows.append(dict(case=case, obs=obs, spelling=sp[0]))
+        route = 'glommer' if rng.random() < 0.3 and not sp[2] else 'default'
+        eph = route == 'default' and not any(case['flags']) and rng.random() < 0.04
+        obs = run_case(case, sp, True, route=route, ephemeral=eph)
+        rows.append(dict(case=case, obs=obs, spelling=sp[0], route=route, ephemeral=eph))
     return rows[:n]
 
 
@@ -902,7 +1003,8 @@ class Driver:
                                                              spelling=full.get('spelling', ''), log=row['obs']['log']))
                 continue
             info = dict(case=row['case'], obs=row['obs'], exp=None, spelling=full.get('spelling', ''), logging=True,
-                        clause=rej['clause'], direction='code->spec')
+                        clause=rej['clause'], direction='code->spec', route=full.get('route', 'default'),
+                        ephemeral=full.get('ephemeral', False))
             check.violation(info, 'recorded execution rejected by the specification: clause %s' % rej['clause'],
                             matcher=self.match_rows)
 
@@ -937,7 +1039,7 @@ class Driver:
             if not o['ok'] and not has_star(r['case']['steps']) and r['case']['heap0'][0]['cls'] in ('dict', 'list', 'obj'):
                 c = copy.deepcopy(dict(case=r['case'], obs=o))
                 ev = {'ev': 'write', 'a': 1, 'op': 'set' if self.kind == 'assign' else 'del',
-                      'key': {'k': 'str', 's': 'zz'}, 'done': True}
+                      'key': {'k': 'str', 's': 'zz'}, 'done': True, 'via': 'seg'}
                 c['obs']['log'] = [ev] + c['obs']['log'] + [dict(ev, done=False)]
                 bad.append(('attach-last' if self.kind == 'assign' else 'write-not-last', c))
                 break
@@ -986,7 +1088,8 @@ class Driver:
             log_rows += self.run_universe(check, consts, label, machine=(len(u) < 3 or u[2]))
             self.lap(check, 'tlc+replay ' + label)
         check.extra['behaviours_by_branch'] = dict(sorted(self.branches.items()))
-        want = ['ok', 'fetch-parent', 'failed-write', 'fault-flag', 'wildcard', 'error:PathAccessError', 'error:any']
+        want = ['ok', 'fetch-parent', 'failed-write', 'fault-flag', 'wildcard', 'error:PathAccessError', 'error:any',
+                'route:glommer', 'route:ephemeral']
         want += ['factory-call', 'build-tail', 'store', 'reuse-shallower-then-deeper', 'reuse-deeper-then-shallower'] \
             if self.kind == 'assign' else ['del', 'error:PathDeleteError', 'lenient']
         if not all(self.branches.get(k) for k in want):
@@ -1039,7 +1142,7 @@ class Driver:
         for sp in spellings(case['steps']):
             if info.get('spelling') and sp[0] != info['spelling']:
                 continue
-            obs = run_case(case, sp, logging)
+            obs = run_case(case, sp, logging, route=info.get('route', 'default'), ephemeral=info.get('ephemeral', False))
             print('spelling=%s logging=%s observed: ok=%s cls=%s v=%s nfac=%s'
                   % (sp[0], logging, obs['ok'], obs['cls'], obs['v'], obs['nfac']))
             print('  heap:', _json.dumps(obs['heap']))
